@@ -513,6 +513,9 @@ class Parser(ExprParser):
             elif self.token.typ == "TYPE_SPECIFIER":
                 node.specifier.append(self.token.value)
                 self.info("type-specifier:", self.token.value)
+                # An identifier after a built-in specifier is the declared
+                # name, not a type name (int size_t declares size_t).
+                found_type = True
                 self.next()
             elif self.token.typ == "TYPE_QUALIFIER":
                 # const volatile
